@@ -38,7 +38,7 @@ def handle (req : Sexp) : Sexp :=
     match decodeVal v, decodeSettings st with
     | some v, some st =>
       let d := (Pr.topDoc st.ctx v).normalize
-      .list [sym "ok", ofNat (Pr.pyCalls v), ofNat d.size, ofNat (runW st.cfg [(0, .brk, .doc d)] 0)]
+      .list [sym "ok", ofNat (Pr.pyCalls v), ofNat (runC st.cfg [(0, .brk, .doc d)] 0)]
     | _, _ => sym "bad-request"
   | .list [.atom "color", out] =>
     match decodeSDocs out with
